@@ -151,6 +151,41 @@ struct OA {
 		}
 		return fmt("p=%zu", rank(c, it));
 	}
+	// a mapped constructor that throws inside a piecewise emplace (maps): the key was already built in the buffer / moved into the
+	// node; nothing may leak or be destroyed twice (ledger), the container stays as it was
+	static std::string insThrow(C& c, unsigned how, size_t h, int k) {
+		if constexpr (isMap) {
+			try {
+				switch (how % 4) {
+				case 0: c.emplace(std::piecewise_construct, std::forward_as_tuple(k / 16, k % 16), std::forward_as_tuple(777, 1)); break;
+				case 1: c.emplace_hint(at(c, h), std::piecewise_construct, std::forward_as_tuple(k / 16, k % 16), std::forward_as_tuple(777, 1)); break;
+				case 2: c.emplace(std::piecewise_construct, std::forward_as_tuple(CKey(k)), std::forward_as_tuple(777, 2)); break;
+				default: { if constexpr (!isMulti) { CKey key(k); c.try_emplace(std::move(key), 777, 3); } else c.emplace(std::piecewise_construct, std::forward_as_tuple(k), std::forward_as_tuple(777, 3)); break; }
+				}
+				return "no exception";
+			}
+			catch (const std::runtime_error&) { return "E:user"; }
+		} else return "";
+	}
+	// the same calls with an allocation that fails (momo only; libstdc++ allocates at other moments): returns whether it threw
+	static bool insAllocFail(C& c, unsigned how, size_t h, int k, int v, long countdown) {
+		ledger().failCountdown = countdown; ledger().fired = false;
+		bool threw = false;
+		try {
+			if constexpr (isMap) {
+				switch (how % 3) {
+				case 0: c.emplace(std::piecewise_construct, std::forward_as_tuple(k / 16, k % 16), std::forward_as_tuple(v / 1000, v % 1000)); break;
+				case 1: c.emplace_hint(at(c, h), std::piecewise_construct, std::forward_as_tuple(k / 16, k % 16), std::forward_as_tuple(v / 1000, v % 1000)); break;
+				default: c.emplace(std::piecewise_construct, std::forward_as_tuple(k), std::forward_as_tuple(v)); break;
+				}
+			} else {
+				if (how % 2) c.emplace(k / 16, k % 16); else c.emplace_hint(at(c, h), k / 16, k % 16);
+			}
+		}
+		catch (const std::bad_alloc&) { threw = true; }
+		ledger().failCountdown = -1;
+		return threw;
+	}
 	// key / value a call of `how` really inserts
 	static int insKey(unsigned how, int k) { return how == 7 ? 0 : k; }
 	static int insVal(unsigned how, int v) { return (how == 6 || how == 7) ? 0 : v; }
@@ -401,7 +436,7 @@ static void runOrderedApi(Ctx& c, Rng& rng, const char* kind, unsigned runs, uns
 				size_t n = m.size();
 				int k = rng.chance(1, 5) ? (int)rng.below((uint64_t)range + 3) : (int)rng.below((uint64_t)range);
 				int v = nextV++;
-				unsigned op = (unsigned)rng.below(100);
+				unsigned op = (unsigned)rng.below(104);	// 99..103: throwing emplace / allocation fault / clear
 				if (grow) op = (unsigned)rng.below(30);
 				else if (n > target + 40 && op < 30) op = 60 + op % 8;
 				if (op < 16) { unsigned how = (unsigned)rng.below(OM::insHows); R.step(fmt("ins%u %s %d %d", how, cn, k, v), OM::ins(m, how, k, v), OS::ins(st, how, k, v)); }
@@ -460,6 +495,21 @@ static void runOrderedApi(Ctx& c, Rng& rng, const char* kind, unsigned runs, uns
 				}
 				else if (op < 97) { auto ys = someItems(3); OM::insertList(m, ys); OS::insertList(st, ys); R.step(fmt("insl %s %s", cn, pairsStr(ys).c_str()), OM::state(m), OS::state(st)); }
 				else if (op < 99) { auto ys = someItems(3); OM::assignList(m, ys); OS::assignList(st, ys); R.step(fmt("asl %s %s", cn, pairsStr(ys).c_str()), OM::state(m), OS::state(st)); }
+				else if (rng.chance(2, 3)) {
+					size_t h = (size_t)rng.below(n + 1); unsigned how = (unsigned)rng.below(12);
+					// (a key that is absent: whether the mapped object is constructed at all for a present key is unspecified - libstdc++ does, momo does not)
+					if (isMap && rng.chance(1, 2)) { int fk = range + 100 + (int)rng.below(1000); if (!isMulti) while (st.count(CKey(fk))) ++fk; c.stats.count("api.emplace_mapped_ctor_throws"); R.step(fmt("insthrow%u %s %zu %d", how % 4, cn, h, fk), OM::insThrow(m, how, h, fk), OS::insThrow(st, how, h, fk)); }
+					else {
+						// allocation fault during an emplace that builds its key / element first: strong guarantee ([associative.reqmts.except]) and no leak
+						std::string before = OM::state(m);
+						bool threw = OM::insAllocFail(m, how, h, k, v, (long)rng.below(2));
+						std::string opn = fmt("insallocfail%u %s %zu %d %d", how % 3, cn, h, k, v);
+						R.note(opn, threw ? "E:bad_alloc" : "inserted / found");
+						c.stats.count(threw ? "api.emplace_alloc_fault_thrown" : "api.emplace_alloc_fault_not_reached");
+						if (threw) R.inv(OM::state(m) == before, opn, "bad_alloc from emplace changed the container: " + before + " -> " + OM::state(m));
+						else OS::insAllocFail(st, how, h, k, v, -1);
+					}
+				}
 				else { m.clear(); st.clear(); R.step(fmt("clear %s", cn), OM::state(m), OS::state(st)); }
 				if (R.diverged) break;
 				// contents and the element ledger after every call
@@ -494,7 +544,7 @@ static void deductionOrdered(Ctx& c)
 	static_assert(std::is_same<decltype(s4), momo::stdish::set<int, std::greater<int>>>::value, "set(il, Less)");
 	momo::stdish::multiset ms1(ks.begin(), ks.end());
 	static_assert(std::is_same<decltype(ms1), momo::stdish::multiset<int>>::value, "multiset(It, It)");
-	momo::stdish::multiset ms2({ 3, 1, 3 });	// brace form: see the note in runOrderedApi's report (g++ skips the list phase for inherited constructors)
+	momo::stdish::multiset ms2({ 3, 1, 3 });	// not `multiset ms2{ 3, 1, 3 }`: g++ 12 skips the initializer-list phase of CTAD for classes that only INHERIT their constructors (multiset, map, multimap, the _open variants); std::multiset{3, 1, 3} deduces
 	static_assert(std::is_same<decltype(ms2), momo::stdish::multiset<int>>::value, "multiset(il)");
 	momo::stdish::map m1(ps.begin(), ps.end());
 	static_assert(std::is_same<decltype(m1), momo::stdish::map<int, int>>::value, "map(It, It)");
